@@ -35,14 +35,16 @@ SPEC = dict(
          "SNAPSHOT LOOP as an explicit thread with the memtable over its size limit, level compaction, full compaction, out-of-order merge, "
          "DropMeasurement of the queried and of another measurement, Close) on a pre-loaded real shard run under a controlled scheduler whose "
          "scheduling points are the lock acquisitions of engine, engine/immutable, engine/mutable and lib/scheduler. "
-         "S1-S5, S4a-d, S9: EVERY schedule with at most <bound> preemptions (at any of these points, plus one 'a timer fires now' choice) is "
-         "executed; switches at points where the running thread blocked or finished are unbounded. "
-         "S6, S7 (snapshot tick || ForceFlush || reader/writer), S8a, S8b (drop || reader || writer) are DELAY-BOUNDED: choice 0 follows a "
-         "family-first deterministic scheduler, every schedule with at most <bound> preemptions AND at most F switches away from that "
-         "scheduler at blocking/finishing points is executed (F = 1 quick, 2 thorough), no explicit timer choice; in S6/S7 preemptions are "
-         "offered only where the thread to be pre-empted is about to lock inside enableForceFlush, disableForceFlush, shouldSnapshot, "
-         "writeSnapshot, cloneReaders, writeRows, AddBothTSSPFiles, makeTSSPFiles, GetBothFilesRef (the snapshotLock / file-publication "
-         "seam); in S8a/S8b at every point. Depth-first over choice points, bounds iterated 0,1,(2); each execution is checked against the "
+         "PREEMPTION-BOUNDED (S5, S4a, S4b, S9 in both tiers; S1, S3, S4c, S4d in thorough): EVERY schedule with at most <bound> preemptions "
+         "(at any of these points, plus one 'a timer fires now' choice) is executed; switches at points where the running thread blocked or "
+         "finished are unbounded. "
+         "DELAY-BOUNDED (S6, S7 = snapshot tick || ForceFlush || reader/writer, S8a, S8b = drop || reader || writer, in both tiers; S1, S2, S3, "
+         "S4c, S4d in quick; S2 in thorough): choice 0 follows a family-first deterministic scheduler, every schedule with at most <bound> "
+         "preemptions AND at most F switches away from that scheduler at blocking/finishing points is executed (F = 1 quick, 2 thorough); "
+         "S6-S8 without the explicit timer choice; in S6/S7 preemptions are offered only where the thread to be pre-empted is about to lock "
+         "inside enableForceFlush, disableForceFlush, shouldSnapshot, writeSnapshot, cloneReaders, writeRows, AddBothTSSPFiles, makeTSSPFiles, "
+         "GetBothFilesRef (the snapshotLock / file-publication "
+         "seam), elsewhere at every point. Depth-first over choice points, bounds iterated 0,1,(2); each execution is checked against the "
          "acknowledged-write history; evaluations = executions, distinct_nontrivial = distinct (scenario, schedule) pairs plus distinct "
          "outcomes; counters scenario_bounds_completed_<S> = (workers x bounds) that finished their share of <S>",
     assumptions=["sequential consistency between scheduling points; data races are outside this check",
